@@ -126,4 +126,11 @@ class ThinPlateSplines(Alignment, Transform, Invertible):
 
         :type: ``type(self)``
         """
-        return ThinPlateSplines(self.target, self.source, kernel=self.kernel)
+        # the reverse spline needs its kernel centred on its own source (the
+        # current target), not on the source of this transform
+        return ThinPlateSplines(
+            self.target,
+            self.source,
+            kernel=type(self.kernel)(self.target.points),
+            min_singular_val=self.min_singular_val,
+        )
